@@ -16,6 +16,8 @@ RULE = (
     "Distinct = case hash. Non-trivial = batch of >= 2 selected samples with "
     "a tie at the maximum of some utility row, or a restricted candidate "
     "set (some unlabeled sample is not a candidate).")
+RULE += (" Further generated dimensions (added while closing seeded "
+         "changes): " + 'alternative constructor configurations; large-scale sample weights; n_jobs incl. the default -1; GaussianNB zero-variance region excluded by construction (counted)' + ".")
 ASSUMPTIONS = [
     "the reference candidate set is computed from the case without "
     "skactiveml",
